@@ -50,6 +50,7 @@ type SpecParam struct{ Name, Type string }
 type GhostVar struct {
 	Name string
 	Type string // sort text: e.g. map[string]bool, int, map[string]V
+	Pkg  interface{} // *types.Package the declaration was written in
 }
 
 type Lemma struct {
@@ -550,7 +551,7 @@ func parseContractFile(path string) (*ContractFile, error) {
 			if len(parts) != 2 {
 				return nil, fail(ln.n, "ghost: expected name : type")
 			}
-			cf.Ghosts = append(cf.Ghosts, &GhostVar{strings.TrimSpace(parts[0]), strings.TrimSpace(parts[1])})
+			cf.Ghosts = append(cf.Ghosts, &GhostVar{Name: strings.TrimSpace(parts[0]), Type: strings.TrimSpace(parts[1])})
 		case "spec":
 			// spec func name(a T, b T) R = expr   | spec func name(a T) R   (uninterpreted)
 			r := strings.TrimSpace(strings.TrimPrefix(rest, "func"))
